@@ -926,3 +926,21 @@ Qed.
 
 Lemma P_b_spec h tr : P_b h tr = true <-> P_from h obs0 tr.
 Proof. unfold P_b, P_trace. rewrite N.eqb_eq. apply P_trace_from_spec. Qed.
+
+(** submitting the logout (or an update) of an appchain pauses its services at once *)
+Lemma cascade_logout_submit c s s' :
+  run (chain_op Ev_Logout c) None s = (true, s') -> forall i, In i (reg_of c s) -> unav s' i.
+Proof.
+  unfold chain_op.
+  change (String.eqb Ev_Logout Ev_Activate) with false. change (String.eqb Ev_Logout Ev_Update) with false.
+  change (String.eqb Ev_Logout Ev_Logout) with true. cbn iota. cbn [orb run].
+  destruct (nget c (chains s)) as [st|]; [|cbn [run]; discriminate].
+  destruct (negb (pre_ok KChain Ev_Logout st)); [cbn [run]; discriminate|].
+  unfold submit. cbn [run].
+  destruct (lock_low KChain c 0 Ev_Logout (props s)) as [ps' lk]. cbn [run].
+  match goal with |- context [nget c (chains ?t)] => change (nget c (chains t)) with (nget c (chains s)) end.
+  destruct (nget c (chains s)) as [a|]; [|discriminate].
+  destruct (fire KChain st a Ev_Logout) as [b|]; [|discriminate].
+  unfold pause_chain_services. cbn [run].
+  intros H i Hi. apply each_pause_unav in H. destruct H as [A _]. apply A. exact Hi.
+Qed.
